@@ -7,10 +7,11 @@ from vlib import tdgen
 from vlib.tdgen import Raw
 
 ID = "C09"
+NEEDS_CLI = True
 RULE = ("op td.hash on accepted C08-style documents with exactly one violation injected at a random position (inside nested structs/arrays): "
         "every width 8..256 x the six boundary values (-2^(N-1)-1, -2^(N-1), 2^(N-1)-1, 2^(N-1), 2^N-1, 2^N) x every spelling (JSON int where it fits, "
         "float where exact, decimal string, hex string, +, negative string) for intN and uintN; bytesN lengths N-1, N, N+1; fixed array sizes +-1; "
-        "missing / extra member; undefined type; wrong JSON kind; non-trivial = distinct document with an injected boundary value or violation; "
+        "missing / extra member; undefined type; wrong JSON kind; a random sample of the cases is re-run through every sub-command that reaches the same code (vlib/routes.py); non-trivial = distinct document with an injected boundary value or violation; "
         "judge = executable conformance relation of Spec.Eip712 (exact mathematical value of every literal)")
 EXHAUSTIVE_SWEEPS = {"quick": ["32 widths x 6 boundaries x {uint,int} x spellings", "bytes1..32 x {N-1,N,N+1}"],
                      "thorough": ["32 widths x 6 boundaries x {uint,int} x spellings", "bytes1..32 x {N-1,N,N+1}"]}
@@ -133,6 +134,8 @@ def gen(rng, tier):
         else:
             kind = "none"
         cases.append(Case("td.hash " + hx(tdgen.dumps(d)), tags=("structural:" + kind,)))
+    from vlib import routes
+    cases += routes.add_routes(cases, rng, 80, tier)
     return cases
 
 
@@ -150,3 +153,8 @@ def match_known(k, case, rec):
         return Fraction(tok).denominator != 1 or len(tok.replace(".", "").replace("-", "")) > 15
     except Exception:
         return False
+
+
+def run_cli(case):
+    from vlib import cli
+    return cli.run_cli(case)
